@@ -1416,5 +1416,29 @@ theorem mapPipeline_getElem {κ} (t0 t : RawTree) (cfg : Config) (vote : Oracle 
     rw [List.getElem?_map, getElem?_zipWith_some _ ids cells i id c hid hc]; rfl
   exact mapM_getElem _ _ out hout i _ hget
 
+/-! ### a concrete instance for the non-vacuity examples of `Props/C01, C06, C17` -/
+
+/-! a 3-level taxonomy with a single top node (10), a single-child parent (20)
+and a branching parent (21), used for the non-vacuity examples -/
+def exTree : RawTree :=
+  { hierarchy := [0, 1, 2],
+    levels := [(0, [(10, [21, 20])]), (1, [(21, [31, 32]), (20, [30])]),
+               (2, [(30, [5]), (31, [6]), (32, [])])] }
+
+/-- an oracle: the cell's number picks the child -/
+def exVote : Oracle Nat := fun _ kids c =>
+  { assignment := ((kids[c % kids.length]?).map (·.1)).getD 0, prob := 1, corr := none,
+    runnersUp := none }
+
+theorem exTree_wf : wfb exTree = true := by decide
+
+theorem exVote_ok (t : RawTree) : VoteOK t exVote := by
+  intro p cl kids c hk
+  have hlt : c % kids.length < kids.length := Nat.mod_lt _ (by omega)
+  simp only [exVote, kidsOf, List.length_map, List.getElem?_map, List.getElem?_eq_getElem hlt,
+    Option.map_some, Option.getD_some]
+  exact List.getElem_mem hlt
+
+
 end LevelLoop
 end CTM
